@@ -9,6 +9,8 @@ from . import common
 
 
 def main():
+    import gc
+    gc.disable()          # see common.tick()
     ap = argparse.ArgumentParser()
     ap.add_argument('prop')
     ap.add_argument('--tier', default=os.environ.get('VERIF_TIER') or 'quick', choices=['quick', 'thorough'])
@@ -24,6 +26,25 @@ def main():
         still = mod.replay(payload)
         print(('STILL-FAILS ' if still else 'PASSES ') + args.replay)
         sys.exit(1 if still else 0)
+
+    # a run that does not come back is itself a report: the implementation (or the model evaluation) hangs
+    import threading, faulthandler
+
+    def _hung():
+        limit = 900 if args.tier == 'quick' else 4 * 3600
+        payload = dict(property=prop, kind='history', seed=common.SEED,
+                       theorem_or_case=f'correspondence run of {prop} ({args.tier} tier)',
+                       summary=f'the check did not finish within {limit} s: the implementation (or a case evaluation) hangs; the property is no longer shown to hold')
+        path = common.write_replay(prop, payload)
+        try:
+            faulthandler.dump_traceback(file=sys.stderr)
+        except Exception:
+            pass
+        print(f'VIOLATION property={prop} replay={path} no-failing-input-found', flush=True)
+        os._exit(1)
+    _timer = threading.Timer(900 if args.tier == 'quick' else 4 * 3600, _hung)
+    _timer.daemon = True
+    _timer.start()
 
     violations = []          # list of (replay payload, found_input: bool)
     known_lines = []
@@ -55,6 +76,12 @@ def main():
                                   summary=f'the correspondence run could not be completed against the current code ({type(e).__name__}: {e}); the property is no longer shown to hold',
                                   traceback=tb[-3000:], config={})],
                    assumptions=[])
+    common.tick(); gc.collect()
+    try:                       # pathos keeps its process pools in a module-level cache: close them before the interpreter exits
+        import pathos.helpers
+        pathos.helpers.shutdown()
+    except Exception:
+        pass
     tie.pop('cases', None)          # dict(coverage=..., failures=[payload...], known=[(id, text)], assumptions=[...])
     kf = common.known_findings(prop)
     open_ids = {k['id']: k for k in kf if k['kind'] == 'finding'}
